@@ -297,7 +297,14 @@ where
     }
 
     pub fn entry(&'_ mut self, key: Handle) -> Entry<'_, T> {
-        let ind = self.find_ind(key);
+        let mut ind = self.find_ind(key);
+        // a vacant entry will be filled in: make room first, like `insert` does
+        if unsafe { *self.handles.as_ptr().add(ind) } != key
+            && (self.count + 1) as f32 > self.capacity as f32 * MAX_LOAD
+        {
+            self.grow().expect("Failed to grow the table");
+            ind = self.find_ind(key);
+        }
 
         let pl = unsafe {
             if *self.handles.as_ptr().add(ind) != key {
